@@ -27,9 +27,17 @@ theorem leafStep_step {g c : Nat} {l : Leaf} {w : World} (h : Pre g c w) :
     exact ⟨(emit_step h.inv (EvOK.obs h.est)).weaken, rfl⟩
   | set k x => exact ⟨setVar_step h.inv, rfl⟩
   | get k => exact ⟨(emit_step h.inv EvOK.get).weaken, rfl⟩
+  | del k =>
+    simp only [leafStep]
+    exact ⟨ctxUpd_step h.inv, rfl⟩
   | push l =>
     simp only [leafStep]
     exact ⟨ctxUpd_step h.inv, rfl⟩
+  | pop =>
+    simp only [leafStep]
+    split
+    · exact ⟨Step.refl h.inv, rfl⟩
+    · exact ⟨ctxUpd_step (c := c) (f := fun y => { y with stack := y.stack.dropLast }) h.inv, rfl⟩
   | deftype n =>
     simp only [leafStep]
     split
@@ -149,15 +157,15 @@ theorem doParent_step {g : Nat} {id : Nat} {ctch : Bool} {body : CtxId → World
     Step (some root) w2 (doParent .now g id ctch body root w2).2 ∧ (doParent .now g id ctch body root w2).2.tls = w2.tls := by
   have sF : Step none w2 (forkCtx root w2).2 := forkCtx_step hp.inv
   have hd := doWithContext_step (g := g) (cx := w2.nextCtx) (w := (forkCtx root w2).2)
-    (body := fun w4 => body w2.nextCtx (setVar w2.nextCtx tagKey id w4))
+    (body := fun w4 => body w2.nextCtx (setTag w2.nextCtx id w4))
     sF.inv hp.glt hp.gnp (by simp) (ctx_fresh_not_pend hp.inv) (fun g' => ctx_fresh_not_estab hp.inv g')
     (by
       intro w4 hp4
-      have s4 : Step (some w2.nextCtx) w4 (setVar w2.nextCtx tagKey id w4) := setVar_step hp4.inv
+      have s4 : Step (some w2.nextCtx) w4 (setTag w2.nextCtx id w4) := setTag_step hp4.inv
       obtain ⟨sb, tb⟩ := hb w2.nextCtx _ (hp4.step s4 rfl)
       exact ⟨s4.trans sb (fun _ _ h => h), by rw [tb]; rfl⟩)
   have base : Step (some root) w2 (doWithContext .now g w2.nextCtx
-      (fun w4 => body w2.nextCtx (setVar w2.nextCtx tagKey id w4)) (forkCtx root w2).2).2 := by
+      (fun w4 => body w2.nextCtx (setTag w2.nextCtx id w4)) (forkCtx root w2).2).2 := by
     refine (sF.weaken (x := some root)).trans hd.1 ?_
     intro i hi _ hc
     simp at hc; omega
@@ -185,11 +193,11 @@ theorem doDo_step {g : Nat} {id : Nat} {ctch : Bool} {body : CtxId → World →
 theorem runTask_now (ex : Prog → Gid → CtxId → World → Outcome × World) (t : Task) (w : World) :
     runTask .now ex t w =
       tlCleanup t.gid
-        { emit t.gid (.done (ex t.prog t.gid t.ctx (setVar t.ctx tagKey (1000 + t.gid) (note t.gid t.ctx (tlFresh t.gid t.ctx w)))).1)
-            (ex t.prog t.gid t.ctx (setVar t.ctx tagKey (1000 + t.gid) (note t.gid t.ctx (tlFresh t.gid t.ctx w)))).2 with
-          oof := (emit t.gid (.done (ex t.prog t.gid t.ctx (setVar t.ctx tagKey (1000 + t.gid) (note t.gid t.ctx (tlFresh t.gid t.ctx w)))).1)
-            (ex t.prog t.gid t.ctx (setVar t.ctx tagKey (1000 + t.gid) (note t.gid t.ctx (tlFresh t.gid t.ctx w)))).2).oof ||
-              decide ((ex t.prog t.gid t.ctx (setVar t.ctx tagKey (1000 + t.gid) (note t.gid t.ctx (tlFresh t.gid t.ctx w)))).1 = .fuel) } := by
+        { emit t.gid (.done (ex t.prog t.gid t.ctx (setTag t.ctx (1000 + t.gid) (note t.gid t.ctx (tlFresh t.gid t.ctx w)))).1)
+            (ex t.prog t.gid t.ctx (setTag t.ctx (1000 + t.gid) (note t.gid t.ctx (tlFresh t.gid t.ctx w)))).2 with
+          oof := (emit t.gid (.done (ex t.prog t.gid t.ctx (setTag t.ctx (1000 + t.gid) (note t.gid t.ctx (tlFresh t.gid t.ctx w)))).1)
+            (ex t.prog t.gid t.ctx (setTag t.ctx (1000 + t.gid) (note t.gid t.ctx (tlFresh t.gid t.ctx w)))).2).oof ||
+              decide ((ex t.prog t.gid t.ctx (setTag t.ctx (1000 + t.gid) (note t.gid t.ctx (tlFresh t.gid t.ctx w)))).1 = .fuel) } := by
   have h : (if Ver.now = Ver.before then forkCtx t.ctx (tlInit t.gid w) else (t.ctx, tlInit t.gid w)) = (t.ctx, tlInit t.gid w) := rfl
   simp only [runTask, h, tlSet_tlInit]
 
@@ -225,16 +233,16 @@ theorem runTask_step {ex : Prog → Gid → CtxId → World → Outcome × World
   have s1 : Step none w0 (tlFresh t.gid t.ctx w0) := tlFresh_step s0.inv hgl hgn
   have s2 : Step none (tlFresh t.gid t.ctx w0) (note t.gid t.ctx (tlFresh t.gid t.ctx w0)) := note_step s1.inv hcl hcn hne
   have s3 : Step (some t.ctx) (note t.gid t.ctx (tlFresh t.gid t.ctx w0))
-      (setVar t.ctx tagKey (1000 + t.gid) (note t.gid t.ctx (tlFresh t.gid t.ctx w0))) := setVar_step s2.inv
-  have hpre : Pre t.gid t.ctx (setVar t.ctx tagKey (1000 + t.gid) (note t.gid t.ctx (tlFresh t.gid t.ctx w0))) :=
+      (setTag t.ctx (1000 + t.gid) (note t.gid t.ctx (tlFresh t.gid t.ctx w0))) := setTag_step s2.inv
+  have hpre : Pre t.gid t.ctx (setTag t.ctx (1000 + t.gid) (note t.gid t.ctx (tlFresh t.gid t.ctx w0))) :=
     { inv := s3.inv
-      cur := by simp [tlGet, setVar, ctxUpd, note, tlFresh, aget]
+      cur := by simp [tlGet, setVar, setTag, ctxUpd, note, tlFresh, aget]
       glt := hgl
       gnp := hgn
-      est := by simp [setVar, ctxUpd, note] }
+      est := by simp [setVar, setTag, ctxUpd, note] }
   obtain ⟨sb, tb⟩ := ih t.prog t.gid t.ctx _ hpre
   rw [runTask_now]
-  generalize ex t.prog t.gid t.ctx (setVar t.ctx tagKey (1000 + t.gid) (note t.gid t.ctx (tlFresh t.gid t.ctx w0))) = r at sb tb
+  generalize ex t.prog t.gid t.ctx (setTag t.ctx (1000 + t.gid) (note t.gid t.ctx (tlFresh t.gid t.ctx w0))) = r at sb tb
   have s03 : Step (some t.ctx) w0 r.2 :=
     (((s1.trans s2 (fun _ _ h => h)).weaken).trans s3 (fun _ _ h => h)).trans sb (fun _ _ h => h)
   have s4 : Step none r.2 (emit t.gid (.done r.1) r.2) := emit_step s03.inv EvOK.done
@@ -252,7 +260,7 @@ theorem runTask_step {ex : Prog → Gid → CtxId → World → Outcome × World
   · funext g'
     by_cases hgg : g' = t.gid
     · subst hgg; simp [tlCleanup, hinv.pendNone t htm]
-    · simp [tlCleanup, hgg, emit, tb, setVar, ctxUpd, note, tlFresh, e4]
+    · simp [tlCleanup, hgg, emit, tb, setVar, setTag, ctxUpd, note, tlFresh, e4]
 
 /-- a scheduling point -/
 theorem yield_step {ex : Prog → Gid → CtxId → World → Outcome × World} (ih : ExecOK ex) {w : World} (hinv : Inv w) :
@@ -302,8 +310,8 @@ theorem exec_step : ∀ f, ExecOK (exec .now f) := by
     | doctx id p =>
       simp only [exec, forkCtx_fst]
       have sF : Step none w (forkCtx c w).2 := forkCtx_step h.inv
-      have sV : Step (some w.nextCtx) (forkCtx c w).2 (setVar w.nextCtx tagKey id (forkCtx c w).2) := setVar_step sF.inv
-      have hd := doWithContext_step (g := g) (cx := w.nextCtx) (w := setVar w.nextCtx tagKey id (forkCtx c w).2)
+      have sV : Step (some w.nextCtx) (forkCtx c w).2 (setTag w.nextCtx id (forkCtx c w).2) := setTag_step sF.inv
+      have hd := doWithContext_step (g := g) (cx := w.nextCtx) (w := setTag w.nextCtx id (forkCtx c w).2)
         (body := fun w2 => exec .now f p g w.nextCtx w2)
         sV.inv h.glt h.gnp (Nat.lt_succ_self _) (ctx_fresh_not_pend h.inv) (fun g' => ctx_fresh_not_estab h.inv g')
         (fun w1 hp => ih p g w.nextCtx w1 hp)
